@@ -133,12 +133,13 @@ func main() {
 // same library routine (wrappers, second/third variants of one algorithm).
 var heavyDuplicate = map[string]bool{
 	"ecvrf.Prove_v10": true, "ecvrf.ProveWithAddedRandomness": true,
-	"x25519.X25519": true, "MontgomeryPoint.Mul": true,
+	"x25519.X25519": true,
 	"EdwardsPoint.MultiscalarMul(n=1)": true, "EdwardsPoint.MultiscalarMul(n=2)": true,
 	"RistrettoPoint.MultiscalarMul(n=2)": true, "RistrettoPoint.Mul": true,
 	"EdwardsPoint.Mul(secret P, secret s)": true,
 	"ed25519.PrivateKey.Sign(ctx)": true, "ed25519.PrivateKey.Sign(ph)": true,
 	"sr25519.SecretKey.KeyPair": true, "x25519.X25519(Basepoint)": true,
+	"history: Sign(zero key) ; Sign(secret key)": true, "history: sr25519 ExpandUniform+Sign(zero) ; (secret)": true,
 	"RistrettoPoint.MulBasepoint(custom table)": true, "RistrettoPoint.MulBasepoint(package table)": true,
 	"EdwardsPoint.MulBasepoint(custom table)": true, "Scalar.BatchInvert": true,
 }
@@ -193,6 +194,8 @@ func buildWindows(sigma int) []window {
 	var xsk, xu, xout [32]byte
 	copy(xsk[:], blob[13][:32])
 	copy(xu[:], []byte{9, 0, 0, 0, 0, 77, 3, 1, 200, 9, 9, 9, 1, 2, 3, 4, 5, 6, 7, 8, 9, 8, 7, 6, 5, 4, 3, 2, 1, 0, 0, 0x11})
+	var zero32 [32]byte
+	skZero := ed25519.NewKeyFromSeed(zero32[:])
 	var (
 		ep  curve.EdwardsPoint
 		rp  curve.RistrettoPoint
@@ -322,6 +325,22 @@ func buildWindows(sigma int) []window {
 		{"sr25519.SecretKey.KeyPair", func() { _ = ssk.KeyPair() }},
 		{"sr25519.KeyPair.Sign", func() { _, _ = kp.Sign(&blobReader{}, sctx.NewTranscriptBytes(msg)) }},
 		{"sr25519.SecretKey.MarshalBinary", func() { _, _ = ssk.MarshalBinary() }},
+		// --- "same secret as the previous call?" ---
+		// Each window is preceded (outside the window's own call, but inside the same process history) by the same
+		// entry point on the all-zero secret, which is the sigma0 value: for sigma0 the window repeats the previous
+		// call's secret, for every other sigma it does not.  A cache of the last secret (or of anything derived from
+		// it) that is consulted with a branch makes the two traces differ.
+		{"history: NewKeyFromSeed(zero) ; NewKeyFromSeed(secret)", func() { _ = ed25519.NewKeyFromSeed(zero32[:]); _ = ed25519.NewKeyFromSeed(seed) }},
+		{"history: Sign(zero key) ; Sign(secret key)", func() { _ = ed25519.Sign(skZero, msg); _ = ed25519.Sign(sk, msg) }},
+		{"history: ecvrf.Prove(zero key) ; ecvrf.Prove(secret key)", func() { _ = ecvrf.Prove(skZero, msg); _ = ecvrf.Prove(sk, msg) }},
+		{"history: ScalarBaseMult(zero) ; ScalarBaseMult(secret)", func() { x25519.ScalarBaseMult(&xout, &zero32); x25519.ScalarBaseMult(&xout, &xsk) }},
+		{"history: sr25519 ExpandUniform+Sign(zero) ; (secret)", func() {
+			var z sr25519.MiniSecretKey
+			kz := z.ExpandUniform().KeyPair()
+			_, _ = kz.Sign(&blobReader{}, sctx.NewTranscriptBytes(msg))
+			k2 := msk.ExpandUniform().KeyPair()
+			_, _ = k2.Sign(&blobReader{}, sctx.NewTranscriptBytes(msg))
+		}},
 		// --- ECVRF ---
 		{"ecvrf.Prove", func() { _ = ecvrf.Prove(sk, msg) }},
 		{"ecvrf.Prove_v10", func() { _ = ecvrf.Prove_v10(sk, msg) }},
